@@ -21,6 +21,22 @@ theorem encOf_pos (v : Nat) (f : Frame) (h : WithinLimits v f) : 0 < (encOf v f)
   have := (c22_decode_bounds v _ _ _ this).1
   omega
 
+@[simp] theorem encAll_nil (v : Nat) : encAll v [] = [] := rfl
+@[simp] theorem encAll_cons (v : Nat) (f : Frame) (fs : List Frame) :
+    encAll v (f :: fs) = encOf v f ++ encAll v fs := by simp [encAll]
+theorem encAll_append (v : Nat) (fs gs : List Frame) : encAll v (fs ++ gs) = encAll v fs ++ encAll v gs := by
+  simp [encAll]
+
+theorem length_le_encAll (v : Nat) (fs : List Frame) (h : ∀ f ∈ fs, WithinLimits v f) :
+    fs.length ≤ (encAll v fs).length := by
+  induction fs with
+  | nil => simp
+  | cons f fs ih =>
+    have hp := encOf_pos v f (h f (by simp))
+    have := ih (fun g hg => h g (by simp [hg]))
+    simp only [encAll_cons, List.length_cons, List.length_append]
+    omega
+
 theorem decodeLoop_no_panic (v : Nat) : ∀ (fuel : Nat) (rem : Bytes), decodeLoop v fuel rem ≠ .panic := by
   intro fuel
   induction fuel with
@@ -148,23 +164,23 @@ theorem partial_stalls (v : Nat) (f : Frame) (hw : WithinLimits v f) (p q : Byte
           (decLen p' = some (bodySize v f, varSize (bodySize v f)) ∧
             (hdrByte f.typeNo f.flags :: p').length < bodySize v f + 1 + varSize (bodySize v f)) := by
         rcases hpq with ⟨a', h1, h2⟩ | ⟨c', h1, h2⟩
-        · by_cases ha : a' = []
-          · subst ha
-            simp only [List.append_nil] at h1 h2
+        · right
+          subst h1
+          refine ⟨decLen_encVar (bodySize v f) a' hpos hlt, ?_⟩
+          have : a'.length + q.length = bodySize v f := by rw [← hl, h2]; simp
+          simp [encVar_length]; omega
+        · by_cases hc : c' = []
+          · subst hc
+            simp only [List.append_nil, List.nil_append] at h1 h2
             right
-            subst h1
+            rw [← h1]
             refine ⟨by simpa using decLen_encVar (bodySize v f) [] hpos hlt, ?_⟩
             simp [encVar_length]; omega
           · left
-            have hal : 0 < a'.length := List.length_pos_iff.mpr ha
+            have hcl : 0 < c'.length := List.length_pos_iff.mpr hc
             apply decLen_prefix_none (bodySize v f) p' hpos hlt
             · rw [h1]; simp; omega
-            · exact ⟨a', h1.symm⟩
-        · right
-          subst h1
-          refine ⟨decLen_encVar (bodySize v f) c' hpos hlt, ?_⟩
-          have : c'.length + q.length = bodySize v f := by rw [← hl, h2]; simp
-          simp [encVar_length]; omega
+            · exact ⟨c', h1.symm⟩
       simp only [decodeFrame, decodeHeader, hty']
       rw [if_pos hp]
       rcases key with hk | ⟨hk, hlen⟩
@@ -179,7 +195,7 @@ theorem partial_stalls (v : Nat) (f : Frame) (hw : WithinLimits v f) (p q : Byte
       have hlen : (encOf v f).length = 1 := by
         cases f <;> simp [Frame.typeNo] at this <;> simp [encOf, encodeFrame]
       rw [hpq] at hlen
-      simp at hlen
+      simp only [List.length_append, List.length_cons] at hlen
       omega
 
 end WK.C23
